@@ -106,20 +106,70 @@ func bigMutatedBesides(v ssa.Value, except *ssa.Call) bool {
 
 // bigEval evaluates a *big.Int expression to a·P + k.
 func bigEval(v ssa.Value, prime ssa.Value) (bigSym, error) {
-	return bigEvalD(v, prime, 0)
+	return bigEvalD(v, prime, 0, nil)
 }
 
-func bigEvalD(v ssa.Value, prime ssa.Value, depth int) (bigSym, error) {
+// bigEvalHelper: result idx of a call of a helper with a body (dhSafetyRange(p)
+// returning both bounds): every return of the helper must evaluate, with the
+// helper's parameters bound to the evaluated arguments, to the same value.
+func bigEvalHelper(call *ssa.Call, idx int, prime ssa.Value, depth int, env map[*ssa.Parameter]bigSym) (bigSym, error) {
+	h := call.Common().StaticCallee()
+	if h == nil || len(h.Blocks) == 0 || h.Pkg == nil || call.Parent() == nil || h.Pkg != call.Parent().Pkg {
+		return bigSym{}, fmt.Errorf("%s is not a big.Int expression over the prime", engine.Describe(call))
+	}
+	inner := map[*ssa.Parameter]bigSym{}
+	for i, a := range engine.Args(call.Common()) {
+		if i >= len(h.Params) {
+			break
+		}
+		if s, err := bigEvalD(a, prime, depth+1, env); err == nil {
+			inner[h.Params[i]] = s
+		}
+	}
+	var out *bigSym
+	for _, r := range engine.Returns(h) {
+		if idx >= len(r.Results) {
+			return bigSym{}, fmt.Errorf("%s has no result %d", h.Name(), idx)
+		}
+		s, err := bigEvalD(engine.RetVal(r, idx), nil, depth+1, inner)
+		if err != nil {
+			return bigSym{}, fmt.Errorf("in %s: %v", h.Name(), err)
+		}
+		if out != nil && (out.a != s.a || out.k.Cmp(s.k) != 0) {
+			return bigSym{}, fmt.Errorf("%s returns different values on different paths", h.Name())
+		}
+		out = &s
+	}
+	if out == nil {
+		return bigSym{}, fmt.Errorf("%s never returns", h.Name())
+	}
+	return *out, nil
+}
+
+func bigEvalD(v ssa.Value, prime ssa.Value, depth int, env map[*ssa.Parameter]bigSym) (bigSym, error) {
 	v = engine.Unwrap(v)
 	if depth > 12 {
 		return bigSym{}, fmt.Errorf("expression too deep")
 	}
-	if v == prime {
+	if prime != nil && v == prime {
 		return bigSym{a: 1, k: new(big.Int)}, nil
+	}
+	if p, isP := v.(*ssa.Parameter); isP {
+		if s, bound := env[p]; bound {
+			return s, nil
+		}
+	}
+	if ex, isE := v.(*ssa.Extract); isE {
+		if hc, isC := ex.Tuple.(*ssa.Call); isC {
+			return bigEvalHelper(hc, ex.Index, prime, depth, env)
+		}
 	}
 	call, ok := v.(*ssa.Call)
 	if !ok {
 		return bigSym{}, fmt.Errorf("%s is not a big.Int expression over the prime", engine.Describe(v))
+	}
+	if callee := call.Common().StaticCallee(); callee != nil && len(callee.Blocks) > 0 && callee.Pkg != nil && call.Parent() != nil && callee.Pkg == call.Parent().Pkg && callee.Signature.Results().Len() == 1 {
+		return bigEvalHelper(call, 0, prime, depth, env)
 	}
 	if bigMutatedBesides(call, nil) {
 		return bigSym{}, fmt.Errorf("%s is changed in place after it is computed", engine.Describe(v))
@@ -137,7 +187,7 @@ func bigEvalD(v ssa.Value, prime ssa.Value, depth int) (bigSym, error) {
 		}
 		return fmt.Errorf("receiver %s of %s is not a fresh value", engine.Describe(z), id)
 	}
-	sub := func(i int) (bigSym, error) { return bigEvalD(args[i], prime, depth+1) }
+	sub := func(i int) (bigSym, error) { return bigEvalD(args[i], prime, depth+1, env) }
 	switch id {
 	case "math/big.NewInt":
 		n, isK := engine.ConstInt(args[0])
